@@ -33,8 +33,8 @@ ASSUMPTIONS = [
     'symbolic runs use an integer-time subclass of task.Clock/DelayedCall (same code, int 0 instead of float 0.0); native replays use the stock task.Clock',
 ]
 BOUNDS = {
-    'quick': {'names': 2, 'steps': '2 (all kinds) and 3 (timed line, any line, clock advance; any line, clock advance, any line); 3 through a real TorState (0-2 mappings listed at bootstrap, then events, then a clock advance)', 'expiry_offset_s': [-10, MAX_OFF], 'advance_s': [0, MAX_ADV], 'line_forms': 5},
-    'thorough': {'names': 2, 'steps': 3, 'expiry_offset_s': [-10, MAX_OFF], 'advance_s': [0, MAX_ADV], 'line_forms': 5},
+    'quick': {'names': 2, 'steps': '2 (all kinds) and 3 (timed line, any line, clock advance; any line, clock advance, any line); 3 through a real TorState (0-2 mappings listed at bootstrap, then events, then a clock advance)', 'expiry_offset_s': [-10, MAX_OFF], 'advance_s': [0, MAX_ADV], 'line_forms': '5 kinds; failed lookups in 3 spellings'},
+    'thorough': {'names': 2, 'steps': 3, 'expiry_offset_s': [-10, MAX_OFF], 'advance_s': [0, MAX_ADV], 'line_forms': '5 kinds; failed lookups in 3 spellings'},
 }
 OUTSIDE = ['non-UTC local time', 'sub-second expiries', 'more than 3 steps / 2 names', 'expiry offsets beyond 3 days']
 
@@ -59,6 +59,9 @@ class Rec(object):
         self.log.append(('expired', name))
 
 
+_ERR_FORM = [0]
+
+
 def _line(kind, name, ip, tok_local, tok_utc):
     if kind == 1:
         return '%s %s "%s"' % (name, ip, tok_utc)
@@ -69,7 +72,13 @@ def _line(kind, name, ip, tok_local, tok_utc):
     if kind == 4:
         return '%s %s NEVER CACHED="YES"' % (name, ip)
     if kind == 5:
-        return '%s <error> "%s" error=yes EXPIRES="%s" CACHED="NO"' % (name, tok_local, tok_utc)
+        # a failed lookup; older Tors send it without the error= keyword, or in the short form
+        form = _ERR_FORM[0] % 3
+        if form == 0:
+            return '%s <error> "%s" error=yes EXPIRES="%s" CACHED="NO"' % (name, tok_local, tok_utc)
+        if form == 1:
+            return '%s <error> "%s" EXPIRES="%s" CACHED="NO"' % (name, tok_local, tok_utc)
+        return '%s <error> "%s"' % (name, tok_utc)
     raise AssertionError(kind)
 
 
@@ -169,6 +178,7 @@ def _history(k, kinds, names, vals, via=0, nboot=0):
             assume(-10 <= v <= MAX_OFF)
             ip = '10.0.%d.%d' % (i + 1, ni + 1)
             exp = now[0] + v
+            _ERR_FORM[0] = i + ni          # which of the three <error> spellings: varies with step and name
             line = _line(kind, name, ip, token(i, 'L', exp + 5 * 3600), token(i, 'U', exp))
             was_alive = name in model
             try:
